@@ -30,15 +30,28 @@ def index0(I, v, i):
     raise Unsupported(f"leading-axis index of scalar {type(v).__name__}")
 
 
+def index_axis(I, v, axis, i):
+    """slice i along `axis` of a (pytree of) batched value(s)"""
+    if axis == 0:
+        return index0(I, v, i)
+    if isinstance(v, UVal):
+        externals._used("A4: jnp.take(v, i, axis=k) / vmap with in_axes=k slice along axis k")
+        return UVal(I.ctx.fn("axis_index", U, Z, Z, U)(v.t, z3.IntVal(axis), i), v.cls)
+    ch = externals.tree_children(I, v)
+    if ch is not None:
+        return ch[1]([index_axis(I, c, axis, i) for c in ch[0]])
+    raise Unsupported(f"axis-{axis} index of {type(v).__name__}")
+
+
 def slice_spec(I, spec, arg, i):
     if spec is None:
         return arg
     if isinstance(spec, bool):
         raise Unsupported("bool in_axes")
     if isinstance(spec, int):
-        if spec != 0:
-            raise Unsupported("in_axes other than 0 / None")
-        return index0(I, arg, i)
+        if spec < 0:
+            raise Unsupported("negative in_axes")
+        return index_axis(I, arg, spec, i)
     if isinstance(spec, (tuple, list)):
         if isinstance(arg, (tuple, list)) and len(arg) == len(spec):
             return type(arg)(slice_spec(I, s, a, i) for s, a in zip(spec, arg))
@@ -60,7 +73,7 @@ def batch_len(I, spec, arg):
         if isinstance(arg, Stacked):
             return arg.n if not isinstance(arg.n, int) else z3.IntVal(arg.n)
         if isinstance(arg, UVal):
-            n = I.ctx.fn("axis0_len", U, Z)(arg.t)
+            n = I.ctx.fn("axis0_len", U, Z)(arg.t) if spec == 0 else I.ctx.fn("axis_len", U, Z, Z)(arg.t, z3.IntVal(spec))
             I.ctx.assume(n >= 0)
             return n
         ch = externals.tree_children(I, arg)
@@ -110,9 +123,9 @@ def jax_vmap(I, f, in_axes=0, out_axes=0, **kw):
 
 
 def jnp_take(I, v, idx, axis=None):
-    if axis not in (0, None):
-        raise Unsupported("jnp.take on axis != 0")
-    return index0(I, v, zint(idx))
+    if axis is not None and not isinstance(axis, int):
+        raise Unsupported("jnp.take with a symbolic axis")
+    return index_axis(I, v, axis or 0, zint(idx))
 
 
 def install(I):
